@@ -110,7 +110,7 @@ PROPERTIES = {
     },
     "C06": {
         "units": ["U-overlap", "U-output", "U-bitvec", "U-resolver", "U-cursor"],
-        "claim": "check_bank_overlap: Ok implies no two bank output windows share a bit (an unsized bank extends to infinity); check_bank_output: Ok implies position + size lies inside a sized bank and a written item's bank has an output offset, and it rejects only such violations; check_bank_usage: the default bank is usable only while it is the only bank; get_output_position = outp + position; fill_banks sets no bit and extends the output to the end of every filled bank; BitVec writes change exactly the addressed bits, so every bit not written is zero and len is the maximum end of writes; misaligned labels are rejected (eval_address). build_output itself is verified: every item goes through usage check, window check, overlap check and then the write, every `unwrap()` in it is justified by the preceding check's postcondition, and the output it returns satisfies the bit-store invariant. Composition (proved as loop invariants of build_output): no two recorded items with an output position share an output bit (every sized item is an entry of the overlap checker, which accepted it against all earlier ones), and every set bit of the output lies inside a recorded item - i.e. every bit not written by an item is zero. OverlapChecker::check_and_insert: Ok implies the new (position,size) shares no output bit with any stored entry, the entry list stays ordered/disjoint and is changed by exactly one insertion; Err leaves it unchanged and pushes a message; an entry is rejected only if it touches a stored one.",
+        "claim": "check_bank_overlap: Ok implies no two bank output windows share a bit (an unsized bank extends to infinity); check_bank_output: Ok implies position + size lies inside a sized bank and a written item's bank has an output offset, and it rejects only such violations; check_bank_usage: the default bank is usable only while it is the only bank; get_output_position = outp + position; fill_banks sets no bit and extends the output to the end of every filled bank; BitVec writes change exactly the addressed bits, so every bit not written is zero and len is the maximum end of writes; misaligned labels are rejected (eval_address). build_output itself is verified: every item goes through usage check, window check, overlap check and then the write, every `unwrap()` in it is justified by the preceding check's postcondition, and the output it returns satisfies the bit-store invariant. Composition (proved as loop invariants of build_output): no two recorded items with an output position share an output bit (every sized item is an entry of the overlap checker, which accepted it against all earlier ones), and every set bit of the output lies inside a recorded item - i.e. every bit not written by an item is zero; and every sized item recorded at logical address a lies inside the output window of a defined bank b at output position outp_b + p with a = addr_b + p / unit_b (under the guards of the known overflow findings D9c/D9h). OverlapChecker::check_and_insert: Ok implies the new (position,size) shares no output bit with any stored entry, the entry list stays ordered/disjoint and is changed by exactly one insertion; Err leaves it unchanged and pushes a message; an entry is rejected only if it touches a stored one.",
         "not_reached": "that the items build_output walks are in the state the resolve passes left them (labels are integers, encodings sized, position + size already computed): assumed in ResolveIterator::next's contract; bank definition parsing",
         "trusted_base": REPORT_TB + NUMBIGINT_TB + RESOLVER_TB + ["ASSUMED spec of <[T]>::binary_search_by (phrased through the closure's contract)", "check_bank_output's precondition position + size <= usize::MAX is not checked at its (unverified) call sites"],
     },
